@@ -18,7 +18,7 @@ func init() {
 			"random arrays up to length 12 with lists up to 4 and bounds to +-2^31. Oracle: slice arithmetic written in the harness. Non-trivial: array length >= 1; distinct by (array, subscript list, mode, silent)",
 		Run:          runC14,
 		Replay:       replayC14,
-		MinExercised: map[string]int64{"single": 5000, "range": 20000, "list": 20000, "last": 5000, "lax.clip": 5000, "lax.wrap": 500, "strict.bounds": 5000, "strict.below-any": 200, "badsubscript": 200},
+		MinExercised: map[string]int64{"single": 5000, "range": 20000, "list": 20000, "last": 5000, "lax.clip": 5000, "lax.wrap": 500, "strict.bounds": 5000, "strict.below-any": 200, "subscript.current": 2000, "badsubscript": 200},
 		Assumptions:  []string{"positions are trunc(e) toward zero; ranges inclusive; last = n-1 of the innermost subscripted array"},
 	})
 }
@@ -338,6 +338,131 @@ func runC14(c *h.Ctx) {
 					checkSubscripts(c, d, false, nil, []sub{s}, lax, di%2 == 0)
 				}
 			}
+		}
+	}
+	// lax auto-wrapping nested in itself: a non-array subscripted inside the
+	// subscript list, bound or continuation of another wrapped non-array
+	wrapCases := []struct{ p, d, want string }{
+		{"$[0,0][0]", `5`, "#5 | #5"}, {"$[0,0][0,0]", `"s"`, `"s" | "s" | "s" | "s"`}, {"$[0 to 0, 0][last]", `true`, "true | true"}, {"$[0][0][0]", `5`, "#5"},
+		{"$[0,0].a[0]", `{"a":5}`, "#5 | #5"}, {"$[0,0].a[0,0]", `{"a":5}`, "#5 | #5 | #5 | #5"}, {"$[last,0].a[last].b[0]", `{"a":{"b":7}}`, "#7 | #7"},
+		{"$.o[$.z[0]]", `{"o":"x","z":0}`, `"x"`}, {"$.o[$.z[0], $.z[0]]", `{"o":"x","z":0}`, `"x" | "x"`}, {"$.o[$.z[last]]", `{"o":"x","z":0}`, `"x"`},
+		{"$.o[$.z[0] to $.z[0]]", `{"o":{"k":1},"z":0}`, `{"k":#1}`}, {"$[0,0] ? (@[0] == 5)", `5`, "#5 | #5"}, {"$[0,0] ? (@[0][0] == 5)[0]", `5`, "#5 | #5"},
+		{"$[$[0].z]", `{"z":0}`, `{"z":#0}`}, {"$[0, $[0].z, 0].z[0]", `{"z":0}`, "#0 | #0 | #0"},
+	}
+	for i, wc := range wrapCases {
+		idx++
+		if !c.Mine(idx) {
+			continue
+		}
+		_ = i
+		for _, useNum := range []bool{false, true} {
+			p := cachedPath(wc.p)
+			if p == nil {
+				c.Count("gen.unparsable", 1)
+				continue
+			}
+			o := h.Call("query", p, h.Decode(wc.d, useNum), h.Opts{})
+			c.Eval(1)
+			c.Distinct(wc.p, wc.d, fmt.Sprint(useNum))
+			got := ""
+			if o.Class == h.OK {
+				gs := make([]string, len(o.Items))
+				for j, it := range o.Items {
+					gs[j] = canonJSON(it)
+				}
+				got = strings.Join(gs, " | ")
+			}
+			if o.Class != h.OK || got != wc.want {
+				c.Violate("lax.wrap", h.F("form", "nested-wrap"), fmt.Sprintf("Query(%s) on %s = %s; a non-array behaves as a one-element array at every level: [%s]", wc.p, wc.d, o.Summary(), wc.want), h.Case{Kind: "nested", Path: wc.p, Doc: wc.d, UseNum: useNum})
+			} else {
+				c.Held("lax.wrap")
+			}
+		}
+	}
+	// a subscript inside a filter may mention @: it is the filtered item, not
+	// the array being subscripted
+	rs := c.Rand("c14-current")
+	ncur := c.PerShard(c.N(40000, 400000))
+	for i := 0; i < ncur; i++ {
+		nrows := 1 + rs.IntN(4)
+		rows := make([]string, nrows)
+		type row struct {
+			i    int
+			a    []int
+			objs bool
+		}
+		rws := make([]row, nrows)
+		objs := rs.IntN(3) == 0
+		for j := range rows {
+			rw := row{i: rs.IntN(5) - 1, objs: objs}
+			for k := rs.IntN(4); k >= 0; k-- {
+				rw.a = append(rw.a, 10*(1+rs.IntN(3)))
+			}
+			rws[j] = rw
+			el := make([]string, len(rw.a))
+			for k, v := range rw.a {
+				if objs {
+					// the elements carry the same member name as the row
+					el[k] = fmt.Sprintf(`{"i":%d,"v":%d}`, rs.IntN(3), v)
+				} else {
+					el[k] = fmt.Sprint(v)
+				}
+			}
+			rows[j] = fmt.Sprintf(`{"i":%d,"a":[%s]}`, rw.i, strings.Join(el, ","))
+		}
+		v := 10 * (1 + rs.IntN(3))
+		lax := rs.IntN(2) == 0
+		ptxt := fmt.Sprintf("$[*] ? (@.a[@.i] == %d).i", v)
+		if objs {
+			ptxt = fmt.Sprintf("$[*] ? (@.a[@.i].v == %d).i", v)
+		}
+		if rs.IntN(4) == 0 {
+			ptxt = strings.Replace(ptxt, "[@.i]", "[@.i to last]", 1)
+		}
+		if !lax {
+			ptxt = "strict " + ptxt
+		}
+		toLast := strings.Contains(ptxt, "to last")
+		var want []string
+		for _, rw := range rws {
+			hit := false
+			if toLast {
+				// strict: a negative lower bound is out of bounds (unknown); lax: clipped
+				if rw.i >= 0 || lax {
+					for k := max(rw.i, 0); k < len(rw.a); k++ {
+						if rw.a[k] == v {
+							hit = true
+						}
+					}
+				}
+			} else if rw.i >= 0 && rw.i < len(rw.a) && rw.a[rw.i] == v {
+				hit = true
+			}
+			if hit {
+				want = append(want, fmt.Sprintf("#%d", rw.i))
+			}
+		}
+		p := cachedPath(ptxt)
+		if p == nil {
+			c.Count("gen.unparsable", 1)
+			continue
+		}
+		docText := "[" + strings.Join(rows, ",") + "]"
+		o := h.Call("query", p, h.Decode(docText, false), h.Opts{})
+		c.Eval(1)
+		c.Distinct(ptxt, docText)
+		got := ""
+		if o.Class == h.OK {
+			gs := make([]string, len(o.Items))
+			for j, it := range o.Items {
+				gs[j] = canonJSON(it)
+			}
+			got = strings.Join(gs, " | ")
+		}
+		if o.Class != h.OK || got != strings.Join(want, " | ") {
+			c.Violate("subscript.current", h.F("mode", modeName(lax)), fmt.Sprintf("Query(%s) on %s = %s; selecting by position trunc(@.i) of each row's own array gives [%s]", ptxt, docText, o.Summary(), strings.Join(want, " | ")), h.Case{Kind: "nested", Path: ptxt, Doc: docText})
+		} else {
+			c.Held("subscript.current")
 		}
 	}
 	// strict mode below .**: only member accessors skip what they do not apply
